@@ -229,6 +229,42 @@ Fixpoint valid_utf8 (l : bytes) : bool :=
       else false
   end.
 
+(* what encoding/json writes for a Go string: every byte that does not start a valid UTF-8
+   sequence becomes U+FFFD (EF BF BD) and is skipped alone *)
+Definition repl : bytes := [n2b 239; n2b 191; n2b 189].
+Fixpoint sanitize_slow (l : bytes) : bytes :=
+  match l with
+  | [] => []
+  | a :: r =>
+      let x := b2n a in
+      if x <? 128 then a :: sanitize_slow r
+      else if (194 <=? x) && (x <=? 223) then
+        match r with
+        | c1 :: r1 => if cont c1 then a :: c1 :: sanitize_slow r1 else repl ++ sanitize_slow r
+        | _ => repl ++ sanitize_slow r
+        end
+      else if (224 <=? x) && (x <=? 239) then
+        match r with
+        | c1 :: c2 :: r2 =>
+            let y := b2n c1 in
+            if ((if x =? 224 then (160 <=? y) && (y <=? 191)
+                 else if x =? 237 then (128 <=? y) && (y <=? 159) else cont c1)) && cont c2
+            then a :: c1 :: c2 :: sanitize_slow r2 else repl ++ sanitize_slow r
+        | _ => repl ++ sanitize_slow r
+        end
+      else if (240 <=? x) && (x <=? 244) then
+        match r with
+        | c1 :: c2 :: c3 :: r3 =>
+            let y := b2n c1 in
+            if ((if x =? 240 then (144 <=? y) && (y <=? 191)
+                 else if x =? 244 then (128 <=? y) && (y <=? 143) else cont c1)) && cont c2 && cont c3
+            then a :: c1 :: c2 :: c3 :: sanitize_slow r3 else repl ++ sanitize_slow r
+        | _ => repl ++ sanitize_slow r
+        end
+      else repl ++ sanitize_slow r
+  end.
+Definition utf8_sanitize (l : bytes) : bytes := if valid_utf8 l then l else sanitize_slow l.
+
 (* ---------------------------------------------------------------- RFC3339Nano text of a time
    (reference instance of the time text layer; the tie validates it against
    time.Format / time.Parse on every run) *)
